@@ -1,0 +1,87 @@
+//! Verification hooks (compiled only with `--cfg ndarray_stats_verif`).
+//!
+//! A thread-local controller for the pivot positions drawn by the randomized
+//! selection routines in `sort.rs`, so that an external harness can replay a
+//! scripted pivot sequence and observe the choices that were made.
+#![cfg(ndarray_stats_verif)]
+
+use std::cell::RefCell;
+
+/// How the pivot position of each partitioning step is chosen.
+#[derive(Clone, Debug)]
+pub enum PivotMode {
+    /// Use the randomly drawn position unchanged.
+    Record,
+    /// The k-th call returns `script[k] % n`; falls back to the drawn position
+    /// once the script is exhausted.
+    Script(Vec<usize>),
+    /// A stateless function of the sub-array length `n` only:
+    /// 0 = first, 1 = last, 2 = middle, other = `hash(id, n) % n`.
+    Policy(u64),
+}
+
+struct State {
+    mode: PivotMode,
+    calls: usize,
+    log: Vec<(usize, usize)>,
+}
+
+thread_local! {
+    static STATE: RefCell<State> = RefCell::new(State {
+        mode: PivotMode::Record,
+        calls: 0,
+        log: Vec::new(),
+    });
+}
+
+/// Installs a pivot mode for the current thread and clears the log.
+pub fn install(mode: PivotMode) {
+    STATE.with(|s| {
+        let mut s = s.borrow_mut();
+        s.mode = mode;
+        s.calls = 0;
+        s.log.clear();
+    });
+}
+
+/// Returns and clears the log of `(n, chosen)` pairs of the current thread.
+pub fn take_log() -> Vec<(usize, usize)> {
+    STATE.with(|s| {
+        let mut s = s.borrow_mut();
+        s.calls = 0;
+        std::mem::take(&mut s.log)
+    })
+}
+
+fn mix(id: u64, n: u64) -> u64 {
+    let mut z = id
+        .wrapping_mul(0x9E37_79B9_7F4A_7C15)
+        .wrapping_add(n.wrapping_mul(0xBF58_476D_1CE4_E5B9));
+    z = (z ^ (z >> 30)).wrapping_mul(0xBF58_476D_1CE4_E5B9);
+    z = (z ^ (z >> 27)).wrapping_mul(0x94D0_49BB_1331_11EB);
+    z ^ (z >> 31)
+}
+
+/// Called right after a pivot position `drawn` in `0..n` has been drawn.
+pub fn pivot_choice(drawn: usize, n: usize) -> usize {
+    STATE.with(|s| {
+        let mut s = s.borrow_mut();
+        let k = s.calls;
+        s.calls += 1;
+        let chosen = match &s.mode {
+            PivotMode::Record => drawn,
+            PivotMode::Script(script) => match script.get(k) {
+                Some(&p) => p % n,
+                None => drawn,
+            },
+            PivotMode::Policy(id) => match *id {
+                0 => 0,
+                1 => n - 1,
+                2 => n / 2,
+                id => (mix(id, n as u64) % (n as u64)) as usize,
+            },
+        };
+        s.log.push((n, chosen));
+        chosen
+    })
+}
